@@ -144,6 +144,9 @@ FOCUS = [
      "a tab inside a string literal of a macro body"),
     ("tab-in-string-arg", ".msp430\n.macro m(a)\n .db a\n.endm\n m(\"x\ty\")\n", ".msp430\n .db \"x\ty\"\n",
      "a tab inside a string literal passed as argument"),
+    ("blank-run-in-string-arg", ".z80\n.macro STR(s)\n .db s, 0\n.endm\n.macro TWO(a, b)\n .db a\n .db b\n.endm\n.org 0x100\n STR(\"a  b\")\none:\n TWO(\" x   y \", ' ')\n STR( \"p,  q)\" )\nend:\n .dw one, end\n",
+     ".z80\n.org 0x100\n .db \"a  b\", 0\none:\n .db \" x   y \"\n .db ' '\n .db \"p,  q)\", 0\nend:\n .dw one, end\n",
+     "runs of blanks inside string literals passed as macro arguments, labels behind them"),
     ("string-semicolon", ".msp430\n.macro m(a)\n .db \"x;y\", a\n.endm\n m(1)\n", ".msp430\n .db \"x;y\", 1\n",
      "a semicolon inside a string literal of a macro body"),
     ("define-backslash", ".msp430\n.define Q '\\''\n .db Q, 1\n", ".msp430\n .db '\\'', 1\n",
